@@ -65,6 +65,19 @@ func sigString(f *types.Func) string {
 		return ""
 	}
 	sig := f.Type().(*types.Signature)
+	// the names of parameters and results are not part of the identity (naming or un-naming results is a common edit)
+	anon := func(t *types.Tuple) *types.Tuple {
+		var vs []*types.Var
+		for i := 0; i < t.Len(); i++ {
+			vs = append(vs, types.NewVar(token.NoPos, nil, "", t.At(i).Type()))
+		}
+		return types.NewTuple(vs...)
+	}
+	return types.TypeString(types.NewSignatureType(nil, nil, nil, anon(sig.Params()), anon(sig.Results()), sig.Variadic()), func(p *types.Package) string { return p.Path() })
+}
+
+func sigStringOld(f *types.Func) string {
+	sig := f.Type().(*types.Signature)
 	return types.TypeString(types.NewSignatureType(nil, nil, nil, sig.Params(), sig.Results(), sig.Variadic()), func(p *types.Package) string { return p.Path() })
 }
 
